@@ -38,7 +38,8 @@ func (vc *VC) frameCheck(st *State, a *Addr) {
 		fam, _ := fieldPathName(a.Root, a.Path)
 		key := "F_" + typeKey(a.Root) + fam
 		alts := []string{Gt(a.Obj, vc.entryAlloc)}
-		for k, objs := range vc.modset.Fields {
+		for _, k := range sortedFieldKeys(vc.modset.Fields) {
+			objs := vc.modset.Fields[k]
 			if k == key || strings.HasPrefix(key, k+"_") || k == "F_"+typeKey(a.Root) {
 				for _, o := range objs {
 					alts = append(alts, Eq(a.Obj, o))
